@@ -177,3 +177,117 @@ def _sext(hw, top, rng):
 
 def random_history(rng, inputs, n):
     return [{nm: rng.bits(w.getWidth()) for nm, w in inputs.items()} for _ in range(n)]
+
+
+def _block_class():
+    import py4hw
+
+    class Block(py4hw.Logic):
+        """structural block built from a plan; ports: plan inputs + selected node outputs"""
+
+        def __init__(self, parent, name, plan, in_wires, out_keys, out_wires, hw):
+            super().__init__(parent, name)
+            for (nm, w), wire in zip(plan['inputs'], in_wires):
+                self.addIn(nm, wire)
+            # build leaves under self; internal wires are created on hw with unique names
+            sysobj, ins, W, leaves = G.build(_rename(plan, name), into=_WireFactory(hw, in_wires), leaf_parent=self)
+            for key, ow in zip(out_keys, out_wires):
+                # drive the exported wire from the internal node output through a Buf (keeps the internal wire local)
+                py4hw.Buf(self, 'ob_' + ow.name, W[key], ow)
+                self.addOut('o_' + ow.name, ow)
+    return Block
+
+
+def _rename(plan, prefix):
+    import copy
+    p = copy.deepcopy(plan)
+    for nd in p['nodes']:
+        nd['name'] = prefix + '_' + nd['name']
+    return p
+
+
+class _WireFactory:
+    """hands out the block's input wires for the plan inputs and fresh hw wires for everything else"""
+
+    def __init__(self, hw, in_wires):
+        self.hw, self.in_wires, self.k = hw, list(in_wires), 0
+        self.clockDriver = hw.clockDriver
+
+    def wire(self, name, width=1):
+        if name.startswith('in') and name[2:].isdigit() and int(name[2:]) < len(self.in_wires):
+            return self.in_wires[int(name[2:])]
+        return self.hw.wire(name, width)
+
+
+def hier_design(rng, kinds=None):
+    """Top -> (Mid ->)? Block -> leaves, with the same plan instantiated more than once"""
+    import py4hw
+    hw = py4hw.HWSystem()
+    Top = top_class()
+    Block = _block_class()
+    top = Top(hw, 'top')
+    inputs, outputs, avail = {}, {}, []
+    desc = []
+    n_plans = rng.randint(1, 2)
+    plans = [G.random_plan(rng.fork(('p', k)), rng.randint(1, 6), seq_ratio=(1, 4), wmax=rng.choice([2, 4, 8]), kinds=kinds or EMITTABLE)
+             for k in range(n_plans)]
+    uid = [0]
+
+    def get_in(w):
+        c = [x for x in avail if x.getWidth() == w]
+        if c and rng.chance(2, 3):
+            return rng.choice(c)
+        nm = f'ti{len(inputs)}'
+        wire = hw.wire(nm, w)
+        top.addIn(nm, wire)
+        inputs[nm] = wire
+        avail.append(wire)
+        return wire
+
+    def inst_block(parent, plan, tag):
+        uid[0] += 1
+        name = f'b{uid[0]}'
+        in_wires = [get_in(w) for (_, w) in plan['inputs']]
+        keys = [('node', j, k) for j, nd in enumerate(plan['nodes']) for k in range(len(nd['outw']))]
+        keys = rng.shuffle(keys)[:rng.randint(1, min(3, len(keys)))]
+        out_wires = [hw.wire(f'{name}_x{q}', plan['nodes'][key[1]]['outw'][key[2]]) for q, key in enumerate(keys)]
+        # plan-internal wire names must be unique in hw: prefix them
+        p2 = _rename(plan, name)
+        for nd in p2['nodes']:
+            pass
+        Block(parent, name, _uniq(p2, name), in_wires, keys, out_wires, hw)
+        for ow in out_wires:
+            avail.append(ow)
+        desc.append(dict(block=name, plan=tag, parent=parent.name, outs=[o.name for o in out_wires]))
+        return out_wires
+
+    mids = []
+    for t in range(rng.randint(2, 4)):
+        k = rng.randint(0, n_plans - 1)
+        if rng.chance(1, 3):
+            mid = Top(top, f'mid{t}')
+            mids.append(mid)
+            ows = inst_block(mid, plans[k], k)
+            # mid's own ports: everything its block touches
+            blk = list(mid.children.values())[0]
+            for p in blk.inPorts:
+                mid.addIn('m_' + p.wire.name, p.wire)
+            for p in blk.outPorts:
+                mid.addOut('m_' + p.wire.name, p.wire)
+        else:
+            ows = inst_block(top, plans[k], k)
+        for ow in ows:
+            if rng.chance(2, 3):
+                top.addOut(ow.name, ow)
+                outputs[ow.name] = ow
+    if not outputs:
+        ow = avail[-1]
+        top.addOut(ow.name, ow)
+        outputs[ow.name] = ow
+    return dict(hw=hw, top=top, inputs=inputs, outputs=outputs, kind='hier',
+                desc=dict(blocks=desc, plans=[G.plan_summary(p) for p in plans]))
+
+
+def _uniq(plan, prefix):
+    """G.build names internal wires '<node name>_o<k>'; node names are already prefixed"""
+    return plan
